@@ -172,3 +172,68 @@ func ConstructFamily() []Named {
 	add("recursive-message", &Def{Kind: "message", Name: "Node", Fields: []Field{mf(1, "next", Simple("Node")), mf(2, "kids", ArrayOf(Simple("Node")))}})
 	return out
 }
+
+// ExtremesFamily: records at the edges of what the format allows (wide fixed-size structs,
+// many message fields and union members, deep nesting, large enums).
+func ExtremesFamily() []Named {
+	var out []Named
+	s := &Schema{}
+	var gs, is, bs []Field
+	for i := 0; i < 17; i++ {
+		gs = append(gs, f(fmt.Sprintf("g%02d", i), Simple("guid")))
+	}
+	for i := 0; i < 40; i++ {
+		is = append(is, f(fmt.Sprintf("i%02d", i), Simple([]string{"int64", "float64", "date", "uint64"}[i%4])))
+	}
+	for i := 0; i < 300; i++ {
+		bs = append(bs, f(fmt.Sprintf("b%03d", i), Simple([]string{"byte", "bool", "uint8"}[i%3])))
+	}
+	en := &Def{Kind: "enum", Name: "BigEnum", Base: "uint16"}
+	for i := 0; i < 300; i++ {
+		en.Options = append(en.Options, Option{Name: fmt.Sprintf("Opt%03d", i), Lit: fmt.Sprint(i * 7)})
+	}
+	wideEnum := &Def{Kind: "struct", Name: "WideEnums"}
+	for i := 0; i < 140; i++ {
+		wideEnum.Fields = append(wideEnum.Fields, f(fmt.Sprintf("e%03d", i), Simple("BigEnum")))
+	}
+	s.Defs = append(s.Defs, en,
+		&Def{Kind: "struct", Name: "WideGuids", Fields: gs},
+		&Def{Kind: "struct", Name: "WideInts", Fields: is},
+		&Def{Kind: "struct", Name: "WideBytes", Fields: bs},
+		wideEnum,
+		&Def{Kind: "struct", Name: "HoldsWide", Fields: []Field{f("lead", Simple("byte")), f("w", Simple("WideGuids")), f("ws", ArrayOf(Simple("WideInts"))), f("tail", Simple("int32"))}})
+	out = append(out, Named{"extremes/wide", s})
+
+	s = &Schema{}
+	mm := &Def{Kind: "message", Name: "ManyFields"}
+	for i := 1; i <= 60; i++ {
+		mm.Fields = append(mm.Fields, mf(i, fmt.Sprintf("m%02d", i), Simple([]string{"int32", "string", "bool", "guid", "float32"}[i%5])))
+	}
+	mm.Fields = append(mm.Fields, mf(255, "last", Simple("int64")))
+	un := &Def{Kind: "union", Name: "ManyBranches"}
+	for i := 1; i <= 30; i++ {
+		idx := i
+		if i > 25 {
+			idx = 225 + i
+		}
+		b := Branch{Index: idx}
+		if i%2 == 0 {
+			b.Def = &Def{Kind: "struct", Name: fmt.Sprintf("Mb%02d", i), Fields: []Field{f("v", Simple("int32"))}}
+		} else {
+			b.Def = &Def{Kind: "message", Name: fmt.Sprintf("Mb%02d", i), Fields: []Field{mf(1, "v", Simple("string"))}}
+		}
+		un.Branches = append(un.Branches, b)
+	}
+	s.Defs = append(s.Defs, mm, un, &Def{Kind: "struct", Name: "HoldsMany", Fields: []Field{f("m", Simple("ManyFields")), f("u", ArrayOf(Simple("ManyBranches"))), f("tail", Simple("int32"))}})
+	out = append(out, Named{"extremes/many", s})
+
+	s = &Schema{}
+	s.Defs = append(s.Defs, &Def{Kind: "struct", Name: "Ds0", Fields: []Field{f("v", Simple("int32"))}}, &Def{Kind: "message", Name: "Dm0", Fields: []Field{mf(1, "v", Simple("int32"))}})
+	for i := 1; i <= 8; i++ {
+		s.Defs = append(s.Defs, &Def{Kind: "struct", Name: fmt.Sprintf("Ds%d", i), Fields: []Field{f("inner", Simple(fmt.Sprintf("Ds%d", i-1))), f("after", Simple("uint16"))}})
+		s.Defs = append(s.Defs, &Def{Kind: "message", Name: fmt.Sprintf("Dm%d", i), Fields: []Field{mf(1, "inner", Simple(fmt.Sprintf("Dm%d", i-1))), mf(2, "after", Simple("uint16"))}})
+	}
+	s.Defs = append(s.Defs, &Def{Kind: "struct", Name: "DeepMix", Fields: []Field{f("s", Simple("Ds8")), f("m", Simple("Dm8")), f("ms", ArrayOf(Simple("Dm8"))), f("tail", Simple("int32"))}})
+	out = append(out, Named{"extremes/deep", s})
+	return out
+}
